@@ -604,6 +604,13 @@ def parse_equation(equation: str) -> List[Symbol]:
         start, end = match.span()
         template = f'{template[:start]}{{}}{template[end:]}'
 
+    # Any braces other than the placeholders just inserted (one per term) don't
+    # enclose a parameter name and would be misread by `str.format()` below
+    if template.count('{}') != len(terms) or re.search(r'[{}]', template.replace('{}', '')):
+        raise ParserError(
+            f'Found braces that do not enclose a parameter name in equation: {equation}'
+        )
+
     # fmt: off
     template = re.sub(r'\s+',   ' ', template)  # Remove repeated whitespace
     template = re.sub(r'\(\s+', '(', template)  # Remove space after opening brackets
